@@ -29,7 +29,7 @@ ID = "C17"
 LEVEL = "exploration"
 TIERS = {
     "quick": {"shards": 128, "examples": 16, "det_shards": 2},
-    "thorough": {"shards": 1024, "examples": 40, "det_shards": 8},
+    "thorough": {"shards": 2048, "examples": 40, "det_shards": 8},
 }
 RULE = ("case = history: 1-3 small worlds and <= 8 operations (run / run_many with the world of interest first, last or in "
         "the middle / stdout run / API run through cminx.document / Documenter run / companion run under another "
